@@ -110,6 +110,46 @@ func (d *DNode) JSON() string {
 	return sb.String()
 }
 
+// ExtremeNumbers are valid JSON numbers that only json.Number can hold (float64 decoding
+// rejects them as out of range). A document containing one is decoded with them replaced by
+// the nearest representable spelling when UseNumber is off.
+var ExtremeNumbers = map[string]string{"1e999": "1.7976931348623157e308", "-1e999": "-1.7976931348623157e308", "1e-999": "0"}
+
+// jsonFor renders the JSON text to decode in the given mode.
+func (d *DNode) jsonFor(useNumber bool) string {
+	text := d.JSON()
+	if useNumber || !d.hasExtreme() {
+		return text
+	}
+	c := d.Clone()
+	var walk func(n *DNode)
+	walk = func(n *DNode) {
+		if n.K == DNum {
+			if r, ok := ExtremeNumbers[n.N]; ok {
+				n.N = r
+			}
+		}
+		for _, k := range n.Kids {
+			walk(k)
+		}
+	}
+	walk(c)
+	return c.JSON()
+}
+
+func (d *DNode) hasExtreme() bool {
+	if d.K == DNum {
+		_, ok := ExtremeNumbers[d.N]
+		return ok
+	}
+	for _, k := range d.Kids {
+		if k.hasExtreme() {
+			return true
+		}
+	}
+	return false
+}
+
 func (d *DNode) write(sb *strings.Builder) {
 	switch d.K {
 	case DNull:
@@ -181,7 +221,7 @@ func MustDecode(text string, useNumber bool) interface{} {
 
 // Build decodes the tree's JSON text and substitutes opaque leaves.
 func (d *DNode) Build(useNumber bool) interface{} {
-	v := MustDecode(d.JSON(), useNumber)
+	v := MustDecode(d.jsonFor(useNumber), useNumber)
 	return substituteOpaque(v)
 }
 
